@@ -31,9 +31,12 @@ Inductive ucase :=
 | CCmp (op : cmpop) (a b : expr) (impl : option bool) (samples : list (list (N * Q)))
 | CVec (es : list expr) (c : call)                           (* ExpressionVector: c_obs is an OArr *)
 | CVecPartial (es : list expr) (s : list (N * expr)) (c : call)   (* ExpressionVector.evaluate_symbolic(s), then evaluate *)
-| CExactTy (e : expr) (tsc : list (N * (Q * ty))) (tvc : list (N * (list Q * ty))) (tolf : bool) (o : obs)
-    (* evaluate_with_exact_rationals on the formula the implementation holds (read back from sympy), typed scope;
-       tolf: some intermediate value is not a double (only used where the typed model predicts a float) *)
+| CTyped (ex : bool) (e : expr) (tsc : list (N * (Q * ty))) (tvc : list (N * (list Q * ty))) (tolf : bool) (o : obs)
+         (oc : option ty)
+    (* a scalar call on the formula the implementation holds (read back from sympy) against the typed model:
+       ex = true evaluate_with_exact_rationals, false evaluate_in_scope / evaluate_numeric; typed scope (decimal literals
+       are bound to reserved float variables); tolf: some intermediate value is not a double (only used where the
+       typed model predicts a float); oc: the observed Python type class of the result *)
 | CCrash.
 
 Definition eps : Q := 1 # 1073741824.   (* 2^-30, relative to max(1,|v|) *)
@@ -136,12 +139,13 @@ Definition ucheck_corr (c : ucase) : bool :=
       end
   | CVec es c => vec_agree (evaluate (env_of c)) es c
   | CVecPartial es s c => vec_agree (fun e => evaluate (env_of c) (subst s e)) es c
-  | CExactTy e s v tolf o =>
-      (* the typed model: exact result of an exact type, or -- int / int -- a float (then only close) *)
-      let r := mk_tenv s v [] in
+  | CTyped ex e s v tolf o oc =>
+      (* the typed model: the exact value wherever it computes an exact type (int, TimeType), close where it computes
+         a float and some intermediate value is no double; and the Python type class of the result is the computed one *)
+      let r := mk_tenv ex s v [] in
       if all_bound (erase r) e then
         match evalT r e with
-        | Ok (q, t) => agree (is_float t && tolf) (Ok q) o
+        | Ok (q, t) => agree (is_float t && tolf) (Ok q) o && ty_agree t oc
         | Err EFn => false
         | Err _ => true
         end
@@ -176,10 +180,13 @@ Definition ucheck_spec (c : ucase) : bool :=
   | CVec es c => vec_agree (evaluate (env_of c)) es c
   | CVecPartial es s c =>
       if subst_terms_defined (env_of c) s then vec_agree (evaluate (ext (env_of c) s)) es c else true
-  | CExactTy e s v tolf o =>
-      (* the property: exact inputs (ints, TimeType, Rational constants) give the exact rational value *)
-      let r := mk_tenv s v [] in
-      if exact_inputs s v && all_bound (erase r) e then agree false (eval (erase r) e) o else true
+  | CTyped ex e s v tolf o _ =>
+      (* exact mode, exact inputs: the exact value.  Otherwise: the value of the formula, exactly unless some
+         intermediate value is no double (the result type is not part of the property) *)
+      let r := mk_tenv ex s v [] in
+      if all_bound (erase r) e
+      then agree (negb (ex && exact_inputs s v) && tolf) (eval (erase r) e) o
+      else true
   | CCrash => false
   end.
 
